@@ -16,12 +16,13 @@ VARIABLES
   CG,       \* set of <<position, term, command id, tc>> : entry covered by some node's commit index at some
             \* time; tc = that node's term when the entry was first seen covered
   elected,  \* set of <<term, node>> : node was leader in term at some time
-  granted   \* set of <<voter, term, candidate>> : voter's votedFor was candidate in term at some time
+  granted,  \* set of <<voter, term, candidate>> : voter's votedFor was candidate in term at some time
+  lastTick  \* the node whose tick produced this state, or Nil (set by the wrappers: CoreMC, CoreSim, CoreTrace)
 
-gvars == <<G, CG, elected, granted>>
+gvars == <<G, CG, elected, granted, lastTick>>
 
 Live(n) == node[n].alive
-IsVoter(n) == n \in Voters0
+IsVoter(n) == n \notin Observers
 
 HistPairs(s) == {<<s.hist[k][1], s.hist[k][2]>> : k \in 1..Len(s.hist)}
 CommittedOf(s) == {<<s.log[k].idx, s.log[k].term, s.log[k].cmd, s.term>> : k \in {k2 \in 1..Len(s.log) : s.log[k2].idx <= s.commit}}
@@ -32,7 +33,7 @@ CGOf(nd) == UNION {CommittedOf(nd[n]) : n \in {m \in Nodes : nd[m].alive}}
 ElectedOf(nd) == {<<nd[n].term, n>> : n \in {m \in Nodes : nd[m].alive /\ nd[m].role = "L"}}
 GrantedOf(nd) == {<<n, nd[n].term, nd[n].votedFor>> : n \in {m \in Nodes : nd[m].alive /\ nd[m].votedFor # Nil}}
 
-GInit == /\ G = GOf(node) /\ CG = {<<1, 0, NoopCmd, 0>>} /\ elected = ElectedOf(node) /\ granted = GrantedOf(node)
+GInit == /\ lastTick = Nil /\ G = GOf(node) /\ CG = {<<1, 0, NoopCmd, 0>>} /\ elected = ElectedOf(node) /\ granted = GrantedOf(node)
 GNext == /\ G' = G \cup GOf(node')
          /\ CG' = LET have == {Key3(p) : p \in CG} IN CG \cup {p \in CGOf(node') : Key3(p) \notin have}
          /\ elected' = elected \cup ElectedOf(node')
@@ -55,7 +56,7 @@ CallbackAtMostOnce == \A c \in DOMAIN cbs : Len(cbs[c]) <= 1
 SuccessMeansCommittedOnce ==
   \A c \in DOMAIN cbs : \A k \in 1..Len(cbs[c]) :
      (cbs[c][k][2] = SUCCESS /\ c \notin SpecialCids) =>
-        /\ \E p \in G : p[2] = c /\ cbs[c][k][1] = Cardinality({q \in G : q[1] <= p[1]})
+        /\ c \notin Raisers => \E p \in G : p[2] = c /\ cbs[c][k][1] = Cardinality({q \in G : q[1] <= p[1]})
         /\ \E p \in CG : p[3] = c
 FailureMeansNeverApplied ==
   \A c \in DOMAIN cbs : \A k \in 1..Len(cbs[c]) :
@@ -81,6 +82,65 @@ LogMatching ==
 CommittedNotBeyondLog == \A n \in Nodes : Live(n) => node[n].applied <= node[n].commit
 NoEscape == nexc = 0
 
+(* C09 *)
+SnapshotAtPosition ==
+  \A sid \in DOMAIN snaps :
+     LET c == snaps[sid] IN
+     /\ {<<c.hist[k][1], c.hist[k][2]>> : k \in 1..Len(c.hist)} = {p \in G : p[1] <= c.last.idx}
+     /\ c.prev.idx + 1 = c.last.idx
+     /\ \E p \in CG : p[1] = c.last.idx /\ p[2] = c.last.term /\ p[3] = c.last.cmd
+(* a node never ends up holding a blob that is not one complete snapshot (torn transfer / torn dump file) *)
+TransferIntegrity == \A n \in Nodes : Live(n) => node[n].snap # "garbage"
+(* what a node holds after compaction / installation is consistent with its own log and state *)
+HeldSnapshotConsistent ==
+  \A n \in Nodes : (Live(n) /\ node[n].snap \in DOMAIN snaps) =>
+     LET c == snaps[node[n].snap] IN c.last.idx <= node[n].applied
+
+(* C12: a raising command is passed over by every replica: whoever has applied past its position holds *)
+(* every later regular command of the common sequence (covered by StateIsPrefixFold), its callback fires *)
+(* once (CallbackAtMostOnce), nothing escapes the entry points (NoEscape), and a tick that starts with  *)
+(* committed-but-unapplied entries applies them (ApplyProgress, step formula).                           *)
+
+(* C10 *)
+UncommittedMemb(s) == {k \in 1..Len(s.log) : s.log[k].idx > s.commit /\ IsMemb(s.log[k].cmd)}
+(* a leader never has two membership changes in flight, nor one before its own no-op is applied *)
+OneChangeAtATime ==
+  \A n \in Nodes : (Live(n) /\ node[n].role = "L") =>
+     /\ Cardinality(UncommittedMemb(node[n])) <= 1
+     /\ \A k \in UncommittedMemb(node[n]) :
+           (node[n].log[k].term = node[n].term) => node[n].log[k].idx > node[n].noopIdx
+RECURSIVE FoldView(_, _, _)
+FoldView(view, n, es) ==
+  IF es = <<>> THEN view
+  ELSE LET r == MembReq(Head(es).cmd)
+           v1 == IF r.k = "add" /\ r.v # n THEN view \cup {r.v}
+                 ELSE IF r.k = "rem" /\ r.v # n THEN view \ {r.v} ELSE view
+       IN FoldView(v1, n, Tail(es))
+(* the member view of a node equals the configuration defined by the membership entries in its log *)
+ViewBad == IF Membership THEN {n \in Voters0 : Live(n) /\ node[n].log[1].idx = 1 /\
+                                  node[n].others # FoldView(Voters0 \ {n}, n, node[n].log)} ELSE {}
+(* signature of known finding KF1 (known_findings.json): the log holds two membership entries of opposite *)
+(* kind about the same node; applying the earlier one again (apply-time re-application) undoes the later *)
+ReapplySig(n) ==
+  \E i, j \in 1..Len(node[n].log) :
+     /\ i < j /\ IsMemb(node[n].log[i].cmd) /\ IsMemb(node[n].log[j].cmd)
+     /\ MembReq(node[n].log[i].cmd).v = MembReq(node[n].log[j].cmd).v
+     /\ MembReq(node[n].log[i].cmd).k # MembReq(node[n].log[j].cmd).k
+ViewFromLog == ViewBad = {}
+(* removal committed and not followed by a committed re-add *)
+RemovedCommitted(v) ==
+  \E p \in CG : /\ p[3] = RemCmd(v)
+                 /\ ~\E q \in CG : q[3] = AddCmd(v) /\ q[1] > p[1]
+
+(* C18: a read-only node never votes, never stands, never leads *)
+ObserverNeverVotesOrLeads ==
+  /\ \A o \in Observers : Live(o) => (node[o].role = "F" /\ node[o].votedFor = Nil /\ node[o].votes = 0)
+  /\ \A e \in elected : e[2] \notin Observers
+  /\ \A g \in granted : g[1] \notin Observers /\ g[3] \notin Observers
+  /\ \A o \in Observers : \A j \in Nodes : \A k \in 1..Len(chan[o][j]) : chan[o][j][k].t \notin {"rv", "vote"}
+(* the member view of a read-only node never contains read-only nodes, and no voter counts one as a member *)
+ObserversAreNotMembers == \A n \in Nodes : Live(n) => node[n].others \cap Observers = {}
+
 StateViolations ==
      (IF ApplyAgreement THEN {} ELSE {"C01.ApplyAgreement"})
 \cup (IF StateIsPrefixFold THEN {} ELSE {"C01.StateIsPrefixFold"})
@@ -94,6 +154,13 @@ StateViolations ==
 \cup (IF LogContiguous THEN (IF LogMatching THEN {} ELSE {"C04.LogMatching"}) ELSE {"C04.LogContiguous"})
 \cup (IF CommittedNotBeyondLog THEN {} ELSE {"C04.AppliedWithinCommit"})
 \cup (IF NoEscape THEN {} ELSE {"C12.NoEscape"})
+\cup (IF OneChangeAtATime THEN {} ELSE {"C10.OneChangeAtATime"})
+\cup (IF ViewFromLog THEN {} ELSE IF \A n \in ViewBad : ReapplySig(n) THEN {"C10.ViewFromLog#KF1"} ELSE {"C10.ViewFromLog"})
+\cup (IF ObserverNeverVotesOrLeads THEN {} ELSE {"C18.ObserverNeverVotesOrLeads"})
+\cup (IF ObserversAreNotMembers THEN {} ELSE {"C18.ObserversAreNotMembers"})
+\cup (IF SnapshotAtPosition THEN {} ELSE {"C09.SnapshotAtPosition"})
+\cup (IF TransferIntegrity THEN {} ELSE {"C09.TransferIntegrity"})
+\cup (IF HeldSnapshotConsistent THEN {} ELSE {"C09.HeldSnapshotConsistent"})
 
 -----------------------------------------------------------------------------
 (* step formulas: evaluated on (unprimed, primed) *)
@@ -118,9 +185,11 @@ CommitIsQuorumBacked ==
   \A n \in Nodes : (BothLive(n) /\ node'[n].commit > node[n].commit) =>
      LET s == node'[n]
          newE == {s.log[k] : k \in {k2 \in 1..Len(s.log) : s.log[k2].idx > node[n].commit /\ s.log[k2].idx <= s.commit}}
-         V == VotersOf(node', n)
-     IN /\ \E Q \in SUBSET V : /\ 2 * Cardinality(Q) > Cardinality(V)
-                               /\ \A m \in Q : node'[m].alive /\ \A e \in newE : Holds(node'[m], e)
+         \* the member view the decision was taken with: a tick advances the commit index before it appends
+         \* (and thereby enacts) membership entries, a follower after it
+         Backed(V) == \E Q \in SUBSET V : /\ 2 * Cardinality(Q) > Cardinality(V)
+                                          /\ \A m \in Q : node'[m].alive /\ \A e \in newE : Holds(node'[m], e)
+     IN /\ Backed(VotersOf(node, n)) \/ Backed(VotersOf(node', n))
         /\ (s.role = "L" /\ newE # {}) => \E e \in newE : e.idx = s.commit /\ e.term = s.term
 
 (* C03: a node that becomes leader holds every entry ever covered by a commit index *)
@@ -131,8 +200,27 @@ LeaderCompleteness ==
                    \/ \E k \in 1..Len(node'[n].log) :
                          LET e == node'[n].log[k] IN e.idx = p[1] /\ e.term = p[2] /\ e.cmd = p[3]
 
+(* C03 / C18: a node becomes leader of term t only when a majority of the voters it knows granted it their *)
+(* vote in t (votes of read-only nodes, duplicates or stale replies cannot complete a majority)              *)
+ElectionQuorum ==
+  \A n \in Nodes : (node'[n].alive /\ node'[n].role = "L" /\ ~(node[n].alive /\ node[n].role = "L")) =>
+     LET V == VotersOf(node', n)
+         t == node'[n].term
+     IN 2 * Cardinality({v \in V : <<v, t, n>> \in granted'}) > Cardinality(V)
+
+(* C10: once its removal has committed a node wins no election *)
+RemovedIsInert ==
+  \A n \in Nodes : (node'[n].alive /\ node'[n].role = "L" /\ ~(node[n].alive /\ node[n].role = "L")) =>
+     ~RemovedCommitted(n)
+
 (* C03: terms never decrease while a node runs *)
 TermMonotone == \A n \in Nodes : BothLive(n) => node'[n].term >= node[n].term
+
+(* C12 / C01: a tick leaves no committed entry unapplied (a node never stalls behind its commit index) *)
+ApplyProgress ==
+  lastTick' # Nil =>
+     LET n == lastTick' IN
+     BothLive(n) => node'[n].applied = node'[n].commit
 
 StepViolations ==
      (IF MonotoneIndices THEN {} ELSE {"C04.MonotoneIndices"})
@@ -140,4 +228,7 @@ StepViolations ==
 \cup (IF CommitIsQuorumBacked THEN {} ELSE {"C04.CommitIsQuorumBacked"})
 \cup (IF LeaderCompleteness THEN {} ELSE {"C03.LeaderCompleteness"})
 \cup (IF TermMonotone THEN {} ELSE {"C03.TermMonotone"})
+\cup (IF ApplyProgress THEN {} ELSE {"C12.ApplyProgress"})
+\cup (IF ElectionQuorum THEN {} ELSE {"C03.ElectionQuorum"})
+\cup (IF RemovedIsInert THEN {} ELSE {"C10.RemovedIsInert"})
 =============================================================================
